@@ -1,5 +1,5 @@
 (* C10 - lemmas: node-level aggregation, merging, start-up trace, structure of a successful Module.__init__ *)
-From Coq Require Import ZArith NArith Bool List Lia.
+From Coq Require Import ZArith NArith Bool List Lia Permutation.
 Import ListNotations.
 Local Open Scope list_scope.
 Require Import FV.Base.Util FV.Base.F64 FV.Base.PyVal FV.C01.Model FV.Gen.C10 FV.C10.Model.
@@ -117,19 +117,185 @@ Definition is_read (e : ev) : bool := match e with EvRead _ => true | _ => false
 Definition writes_for (n : str) (l : list ev) : list pyval :=
   flat_map (fun e => match e with EvWrite m v => if str_eqb n m then [v] else [] | _ => [] end) l.
 
-Lemma write_one_writes ps nv : forallb is_write (write_one ps nv) = true.
+(* what the write method of n receives when its wrapper is called with v: the validated value, once - or nothing *)
+Definition handed (ps : list param) (n : str) (v : pyval) : list pyval :=
+  match find_param n ps with
+  | Some p => match p_dt p with
+              | Some d => match valid d v with Ok x => if p_wfunc p then [x] else [] | Err _ => [] end
+              | None => []
+              end
+  | None => []
+  end.
+(* the hardware write calls that belong to the pending entries w: one call per entry (none where the value does not
+   validate or there is no driver method) *)
+Definition handed_ev (ps : list param) (nv : str * pyval) : list ev := map (EvWrite (fst nv)) (handed ps (fst nv) (snd nv)).
+Definition hw (ps : list param) (w : wdict) : list ev := flat_map (handed_ev ps) w.
+
+Lemma hw_app ps a b : hw ps (a ++ b) = hw ps a ++ hw ps b.
+Proof. apply flat_map_app. Qed.
+Lemma hw_perm ps a b : Permutation a b -> Permutation (hw ps a) (hw ps b).
+Proof. apply Permutation_flat_map. Qed.
+Lemma hw_writes ps w : forallb is_write (hw ps w) = true.
 Proof.
-  unfold write_one. destruct (find_param (fst nv) ps); [|reflexivity]. destruct (p_dt p); [|reflexivity].
-  destruct (valid d (snd nv)); [|reflexivity]. destruct (p_wfunc p); reflexivity.
+  induction w as [|[n v] w IH]; simpl; [reflexivity|]. rewrite forallb_app, IH, andb_true_r.
+  unfold handed_ev. simpl. induction (handed ps n v); simpl; [reflexivity|assumption].
 Qed.
 
-Lemma startup_shape i : has_thread i = true ->
-  exists ws rs, startup i = ws ++ EvInit :: rs /\ forallb is_write ws = true /\ forallb is_read rs = true /\
-                ws = flat_map (write_one (i_params i)) (i_write i) /\ rs = map EvRead (polled_names i).
+Lemma wpop_perm n : forall w v w1, wpop n w = Some (v, w1) -> Permutation w ((n, v) :: w1).
 Proof.
-  intros H. unfold startup. rewrite H. eexists. eexists. split; [reflexivity|]. split; [|split; [|split; reflexivity]].
-  - induction (i_write i); simpl; [reflexivity|]. rewrite forallb_app, write_one_writes. exact IHl.
-  - induction (polled_names i); simpl; [reflexivity|exact IHl].
+  induction w as [|[k x] w IH]; intros v w1 H; simpl in H; [discriminate|].
+  destruct (str_eqb n k) eqn:E.
+  - apply str_eqb_true in E. subst. inversion H; subst. apply Permutation_refl.
+  - destruct (wpop n w) as [[y r]|] eqn:E2; [|discriminate]. inversion H; subst.
+    eapply perm_trans; [apply perm_skip; apply IH; reflexivity|apply perm_swap].
+Qed.
+Lemma wpop_none n : forall w, wpop n w = None -> ~ In n (map fst w).
+Proof.
+  induction w as [|[k x] w IH]; simpl; intros H; [tauto|].
+  destruct (str_eqb n k) eqn:E; [discriminate|]. destruct (wpop n w) as [[y r]|]; [discriminate|].
+  intros [Hk|Hk]; [subst; rewrite str_eqb_refl' in E; discriminate|exact (IH eq_refl Hk)].
+Qed.
+
+Lemma nodup_app_r {A} (a b : list A) : NoDup (a ++ b) -> NoDup b.
+Proof. induction a; simpl; intros H; [exact H|]. inversion H; subst. apply IHa. assumption. Qed.
+
+(* what remains pending is part of what was pending *)
+Lemma part_keys (w c w' : wdict) : Permutation w (c ++ w') ->
+  (forall k, In k (map fst w') -> In k (map fst w)) /\ (NoDup (map fst w) -> NoDup (map fst w')) /\ List.length w' <= List.length w.
+Proof.
+  intros P. pose proof (Permutation_map fst P) as Pk. rewrite map_app in Pk. split; [|split].
+  - intros k Hk. eapply Permutation_in; [apply Permutation_sym; exact Pk|]. apply in_or_app. right. exact Hk.
+  - intros ND. pose proof (Permutation_NoDup Pk ND) as ND2. apply nodup_app_r in ND2. exact ND2.
+  - rewrite (Permutation_length P), app_length. lia.
+Qed.
+
+(* specification of a wrapper call: the entries c were consumed, and the hardware writes are exactly the ones that
+   belong to the written entry and the consumed ones *)
+Definition call_ok (ps : list param) (call : str -> pyval -> wdict -> wres) (bound : nat) : Prop :=
+  forall n v w es w' ok, List.length w < bound -> call n v w = (es, w', ok) ->
+    exists c, Permutation w (c ++ w') /\ Permutation es (hw ps ((n, v) :: c)).
+
+Lemma takes_ok ps call b : call_ok ps call b -> forall qs w es w' ok,
+  List.length w <= b -> takes_loop call qs w = (es, w', ok) ->
+  exists c, Permutation w (c ++ w') /\ Permutation es (hw ps c).
+Proof.
+  intros Hc. induction qs as [|q qs IH]; intros w es w' ok Hl H; simpl in H.
+  - inversion H; subst. exists []. split; apply Permutation_refl.
+  - destruct (wpop q w) as [[vq w1]|] eqn:Ep; [|apply (IH _ _ _ _ Hl H)].
+    pose proof (wpop_perm _ _ _ _ Ep) as P0. pose proof (Permutation_length P0) as L0. simpl in L0.
+    destruct (call q vq w1) as [[e1 w2] ok1] eqn:Ec.
+    destruct (Hc q vq w1 e1 w2 ok1) as [c1 [P1 Q1]]; [lia|exact Ec|].
+    destruct ok1.
+    + destruct (takes_loop call qs w2) as [[e2 w3] ok2] eqn:Et. inversion H; subst.
+      destruct (part_keys _ _ _ P1) as [_ [_ L1]].
+      destruct (IH w2 e2 w' ok) as [c2 [P2 Q2]]; [lia|exact Et|].
+      exists (((q, vq) :: c1) ++ c2). split.
+      * eapply perm_trans; [exact P0|]. simpl. apply perm_skip. rewrite <- app_assoc.
+        eapply perm_trans; [exact P1|]. apply Permutation_app_head. exact P2.
+      * rewrite hw_app. apply Permutation_app; assumption.
+    + inversion H; subst. exists ((q, vq) :: c1). split; [|exact Q1].
+      eapply perm_trans; [exact P0|]. simpl. apply perm_skip. exact P1.
+Qed.
+
+Lemma wrapper_ok ps call b : call_ok ps call b -> forall n v w es w' ok,
+  List.length w <= b -> wrapper call ps n v w = (es, w', ok) ->
+  exists c, Permutation w (c ++ w') /\ Permutation es (hw ps ((n, v) :: c)).
+Proof.
+  intros Hc n v w es w' ok Hl. unfold wrapper.
+  assert (Z : handed ps n v = [] -> ([], w, ok) = (es, w', ok) ->
+              exists c, Permutation w (c ++ w') /\ Permutation es (hw ps ((n, v) :: c))).
+  { intros Hh H. inversion H; subst. exists []. split; [apply Permutation_refl|]. simpl. unfold handed_ev. simpl.
+    rewrite Hh. apply Permutation_refl. }
+  unfold handed in Z.
+  destruct (find_param n ps) as [p|] eqn:Ef; [|intros H; inversion H; subst; apply Z; reflexivity].
+  destruct (p_dt p) as [d|] eqn:Ed; [|intros H; inversion H; subst; apply Z; reflexivity].
+  destruct (valid d v) as [x|e] eqn:Ev; [|intros H; inversion H; subst; apply Z; reflexivity].
+  destruct (p_wfunc p) eqn:Ew; [|intros H; inversion H; subst; apply Z; reflexivity].
+  clear Z. destruct (takes_loop call (p_takes p) w) as [[es0 w0] ok0] eqn:Et. intros H; inversion H; subst.
+  destruct (takes_ok ps call b Hc _ _ _ _ _ Hl Et) as [c [P Q]]. exists c. split; [exact P|].
+  assert (Hh : handed ps n v = [x]) by (unfold handed; rewrite Ef, Ed, Ev, Ew; reflexivity).
+  simpl. unfold handed_ev. simpl. rewrite Hh. simpl. apply perm_skip. exact Q.
+Qed.
+
+Lemma wcall_ok ps : forall f, call_ok ps (wcall f ps) f.
+Proof.
+  induction f as [|f IH]; intros n v w es w' ok Hl H; [lia|]. simpl in H.
+  eapply wrapper_ok; [exact IH| |exact H]. lia.
+Qed.
+
+Lemma init_loop_cons ps n r w : init_loop ps (n :: r) w =
+  match wpop n w with
+  | None => init_loop ps r w
+  | Some (v, w1) => let '(e, w2, _) := wcall (S (List.length w1)) ps n v w1 in
+                    let '(e', w3) := init_loop ps r w2 in (e ++ e', w3)
+  end.
+Proof. reflexivity. Qed.
+
+Lemma init_loop_ok ps : forall names w es wf, init_loop ps names w = (es, wf) ->
+  exists c, Permutation w (c ++ wf) /\ Permutation es (hw ps c).
+Proof.
+  induction names as [|n names IH]; intros w es wf H; [simpl in H|rewrite init_loop_cons in H].
+  - inversion H; subst. exists []. split; apply Permutation_refl.
+  - destruct (wpop n w) as [[v w1]|] eqn:Ep; [|apply (IH _ _ _ H)].
+    pose proof (wpop_perm _ _ _ _ Ep) as P0.
+    destruct (wcall (S (List.length w1)) ps n v w1) as [[e w2] ok] eqn:Ec.
+    destruct (wcall_ok ps _ _ _ _ _ _ _ (Nat.lt_succ_diag_r _) Ec) as [c1 [P1 Q1]].
+    destruct (init_loop ps names w2) as [e' w3] eqn:El. inversion H; subst.
+    destruct (IH _ _ _ El) as [c2 [P2 Q2]].
+    exists (((n, v) :: c1) ++ c2). split.
+    + eapply perm_trans; [exact P0|]. simpl. apply perm_skip. rewrite <- app_assoc.
+      eapply perm_trans; [exact P1|]. apply Permutation_app_head. exact P2.
+    + rewrite hw_app. apply Permutation_app; assumption.
+Qed.
+
+(* a name the loop has gone through is not pending any more *)
+Lemma init_loop_done ps : forall names w es wf, init_loop ps names w = (es, wf) -> NoDup (map fst w) ->
+  forall k, In k names -> ~ In k (map fst wf).
+Proof.
+  induction names as [|n names IH]; intros w es wf H ND k Hk; [destruct Hk|]. rewrite init_loop_cons in H.
+  destruct (wpop n w) as [[v w1]|] eqn:Ep.
+  - pose proof (wpop_perm _ _ _ _ Ep) as P0.
+    pose proof (Permutation_NoDup (Permutation_map fst P0) ND) as ND1. simpl in ND1. inversion ND1; subst.
+    destruct (wcall (S (List.length w1)) ps n v w1) as [[e w2] ok] eqn:Ec.
+    destruct (wcall_ok ps _ _ _ _ _ _ _ (Nat.lt_succ_diag_r _) Ec) as [c1 [P1 _]].
+    destruct (part_keys _ _ _ P1) as [K1 [N1 _]].
+    destruct (init_loop ps names w2) as [e' w3] eqn:El. inversion H; subst.
+    destruct Hk as [Hk|Hk]; [|apply (IH _ _ _ El (N1 H3) k Hk)].
+    subst k. intros Hin. destruct (init_loop_ok _ _ _ _ _ El) as [c2 [P2 _]].
+    destruct (part_keys _ _ _ P2) as [K2 _]. apply H2. apply K1. apply K2. exact Hin.
+  - destruct Hk as [Hk|Hk]; [|apply (IH _ _ _ H ND k Hk)].
+    subst k. intros Hin. destruct (init_loop_ok _ _ _ _ _ H) as [c2 [P2 _]].
+    destruct (part_keys _ _ _ P2) as [K2 _]. apply (wpop_none _ _ Ep). apply K2. exact Hin.
+Qed.
+
+(* writeInitParams: nothing stays pending, and the hardware write calls are, up to their order, exactly one call per
+   pending entry - whoever (the loop or a write method that took the entry over) made it *)
+Lemma write_init_ok ps w es wf : NoDup (map fst w) -> write_init ps w = (es, wf) ->
+  wf = [] /\ Permutation es (hw ps w).
+Proof.
+  intros ND H. unfold write_init in H. destruct (init_loop_ok _ _ _ _ _ H) as [c [P Q]].
+  assert (wf = []) as ->.
+  { destruct wf as [|[k x] wf]; [reflexivity|]. exfalso.
+    apply (init_loop_done _ _ _ _ _ H ND k); [|left; reflexivity].
+    destruct (part_keys _ _ _ P) as [K _]. apply K. left. reflexivity. }
+  split; [reflexivity|]. rewrite app_nil_r in P. eapply perm_trans; [exact Q|]. apply hw_perm. apply Permutation_sym. exact P.
+Qed.
+
+Lemma forallb_perm {A} (f : A -> bool) l l' : Permutation l l' -> forallb f l = true -> forallb f l' = true.
+Proof.
+  intros P H. apply forallb_forall. intros x Hx. rewrite forallb_forall in H. apply H.
+  eapply Permutation_in; [apply Permutation_sym; exact P|exact Hx].
+Qed.
+
+Lemma startup_shape i : NoDup (map fst (i_write i)) -> has_thread i = true ->
+  exists ws rs, startup i = ws ++ EvInit :: rs /\ forallb is_write ws = true /\ forallb is_read rs = true /\
+                Permutation ws (hw (i_params i) (i_write i)) /\ rs = map EvRead (polled_names i).
+Proof.
+  intros ND H. unfold startup. rewrite H. destruct (write_init (i_params i) (i_write i)) as [es wf] eqn:E.
+  destruct (write_init_ok _ _ _ _ ND E) as [_ P]. simpl.
+  exists es, (map EvRead (polled_names i)). split; [reflexivity|]. split; [|split; [|split; [exact P|reflexivity]]].
+  - eapply forallb_perm; [apply Permutation_sym; exact P|apply hw_writes].
+  - induction (polled_names i); simpl; [reflexivity|assumption].
 Qed.
 
 Lemma startup_none i : has_thread i = false -> startup i = [].
@@ -141,40 +307,41 @@ Proof. unfold writes_for. apply flat_map_app. Qed.
 Lemma writes_for_reads n l : writes_for n (EvInit :: map EvRead l) = [].
 Proof. unfold writes_for. simpl. induction l; simpl; [reflexivity|exact IHl]. Qed.
 
-Lemma write_one_other ps n nv : str_eqb n (fst nv) = false -> writes_for n (write_one ps nv) = [].
+Lemma writes_for_perm n a b : Permutation a b -> Permutation (writes_for n a) (writes_for n b).
+Proof. apply Permutation_flat_map. Qed.
+
+Lemma handed_ev_other ps n nv : str_eqb n (fst nv) = false -> writes_for n (handed_ev ps nv) = [].
 Proof.
-  intros H. unfold write_one. destruct (find_param (fst nv) ps); [|reflexivity]. destruct (p_dt p); [|reflexivity].
-  destruct (valid d (snd nv)); [|reflexivity]. destruct (p_wfunc p); [|reflexivity]. simpl. rewrite H. reflexivity.
+  intros H. unfold handed_ev. induction (handed ps (fst nv) (snd nv)); simpl; [reflexivity|]. rewrite H. exact IHl.
 Qed.
-
-(* what the write method of n receives during start-up: the validated configured value, once - or nothing *)
-Definition handed (ps : list param) (n : str) (v : pyval) : list pyval :=
-  match find_param n ps with
-  | Some p => match p_dt p with
-              | Some d => match valid d v with Ok x => if p_wfunc p then [x] else [] | Err _ => [] end
-              | None => []
-              end
-  | None => []
-  end.
-
-Lemma write_one_self ps n v : writes_for n (write_one ps (n, v)) = handed ps n v.
+Lemma handed_ev_self ps n v : writes_for n (handed_ev ps (n, v)) = handed ps n v.
 Proof.
-  unfold write_one, handed. simpl. destruct (find_param n ps); [|reflexivity]. destruct (p_dt p); [|reflexivity].
-  destruct (valid d v); [|reflexivity]. destruct (p_wfunc p); [|reflexivity]. simpl. rewrite str_eqb_refl'. reflexivity.
+  unfold handed_ev. simpl. induction (handed ps n v); simpl; [reflexivity|]. rewrite str_eqb_refl'. simpl. f_equal. exact IHl.
+Qed.
+Lemma handed_le1 ps n v : List.length (handed ps n v) <= 1.
+Proof.
+  unfold handed. destruct (find_param n ps); [|simpl; lia]. destruct (p_dt p); [|simpl; lia].
+  destruct (valid d v); [|simpl; lia]. destruct (p_wfunc p); simpl; lia.
 Qed.
 
 Lemma writes_for_dict ps n : forall w, NoDup (map fst w) ->
-  writes_for n (flat_map (write_one ps) w) =
-  match assoc_str n w with Some v => handed ps n v | None => [] end.
+  writes_for n (hw ps w) = match assoc_str n w with Some v => handed ps n v | None => [] end.
 Proof.
   induction w as [|[m v] w IH]; intros ND; simpl; [reflexivity|]. inversion ND; subst.
   rewrite writes_for_app, (IH H2). destruct (str_eqb n m) eqn:E.
-  - apply str_eqb_true in E. subst m. rewrite write_one_self.
+  - apply str_eqb_true in E. subst m. rewrite handed_ev_self.
     assert (assoc_str n w = None) as ->; [|apply app_nil_r].
     clear - H1. induction w as [|[k x] w IH]; simpl; [reflexivity|]. simpl in H1.
     destruct (str_eqb n k) eqn:E; [apply str_eqb_true in E; subst; exfalso; apply H1; left; reflexivity|].
     apply IH. intros H. apply H1. right. exact H.
-  - rewrite write_one_other; [reflexivity|exact E].
+  - rewrite handed_ev_other; [reflexivity|exact E].
+Qed.
+
+Lemma perm_short {A} (l s : list A) : Permutation l s -> List.length s <= 1 -> l = s.
+Proof.
+  intros P L. destruct s as [|x [|y s]]; simpl in L; [| |lia].
+  - apply Permutation_nil. apply Permutation_sym. exact P.
+  - apply Permutation_length_1_inv. apply Permutation_sym. exact P.
 Qed.
 
 Lemma startup_writes i n : NoDup (map fst (i_write i)) ->
@@ -184,8 +351,9 @@ Lemma startup_writes i n : NoDup (map fst (i_write i)) ->
   else [].
 Proof.
   intros ND. destruct (has_thread i) eqn:E.
-  - unfold startup. rewrite E. change ([EvInit] ++ map EvRead (polled_names i)) with (EvInit :: map EvRead (polled_names i)).
-    rewrite writes_for_app, writes_for_reads, app_nil_r. apply writes_for_dict. exact ND.
+  - destruct (startup_shape i ND E) as [ws [rs [S [_ [_ [P R]]]]]]. rewrite S, R, writes_for_app, writes_for_reads, app_nil_r.
+    rewrite <- (writes_for_dict _ _ _ ND). apply perm_short; [apply writes_for_perm; exact P|].
+    rewrite (writes_for_dict _ _ _ ND). destruct (assoc_str n (i_write i)); [apply handed_le1|simpl; lia].
   - rewrite startup_none; [reflexivity|exact E].
 Qed.
 
@@ -443,6 +611,24 @@ Proof.
     try (symmetry; exact E); exact E.
 Qed.
 
+Lemma handle_writes_wfunc p : p_wfunc (fst (fst (handle_writes p))) = p_wfunc p.
+Proof.
+  unfold handle_writes. destruct (p_dt p); [|reflexivity]. destruct (p_value p); [reflexivity|].
+  destruct (p_default p); reflexivity.
+Qed.
+Lemma finish_param_wfunc p y : finish_param p = Some y -> p_wfunc y = p_wfunc p.
+Proof.
+  unfold finish_param. destruct (p_iscmd p); [intros H; inversion H; reflexivity|].
+  destruct (refit (p_dt p) (p_default p)); [|discriminate]. destruct (refit (p_dt p) (p_value p)); [|discriminate].
+  intros H; inversion H; reflexivity.
+Qed.
+Lemma finish_param_name p y : finish_param p = Some y -> p_name y = p_name p.
+Proof.
+  unfold finish_param. destruct (p_iscmd p); [intros H; inversion H; reflexivity|].
+  destruct (refit (p_dt p) (p_default p)); [|discriminate]. destruct (refit (p_dt p) (p_value p)); [|discriminate].
+  intros H; inversion H; reflexivity.
+Qed.
+
 (* from a class parameter to the parameter of the created instance *)
 Lemma created_param C c i p : mod_init C c = Created i -> In p (c_params C) -> p_optional p = false -> p_iscmd p = false ->
   exists mv a p1 y p',
@@ -456,7 +642,8 @@ Lemma created_param C c i p : mod_init C c = Created i -> In p (c_params C) -> p
     finish_param (a_param a) = Some y /\ In p' (i_params i) /\
     p_name p' = p_name y /\ p_dt p' = p_dt y /\ p_value p' = p_value y /\ p_descr p' = p_descr y /\ p_iscmd p' = p_iscmd y /\
     check_param p' = [] /\
-    (forall v, a_write a = Some v -> In (p_name (a_param a), v) (i_write i)).
+    (forall v, a_write a = Some v -> In (p_name (a_param a), v) (i_write i)) /\
+    p_wfunc p' = p_wfunc p.
 Proof.
   intros H Hin Ho Hc. destruct (created_inv _ _ _ H) as [mv [accs [ps [EA [EB [Eerr [Edup [EU [EF [ECm [ECp Ei]]]]]]]]]]].
   destruct (phaseB_in _ _ _ _ _ EB Hin Ho) as [a [Ha Hs]].
@@ -469,6 +656,11 @@ Proof.
   - apply in_map. exact Hyin.
   - eapply flat_map_nil; [exact ECp|]. apply in_map. exact Hyin.
   - intros v Hw. unfold writes_of. apply in_flat_map. exists a. split; [exact Ha|]. rewrite Hw. left. reflexivity.
+  - rewrite M6, (finish_param_wfunc _ _ Hy).
+    pose proof (handle_writes_wfunc (post (mexport mv) p1)) as Wh. rewrite Hh in Wh. simpl in Wh. rewrite Wh.
+    destruct (post_keeps (mexport mv) p1) as [K0 _]. rewrite (k_wf _ _ K0).
+    destruct (assoc_str (p_name p) c) as [[v|en]|]; [contradiction| |subst p1; reflexivity].
+    destruct (entry_inv _ _ _ Hc He) as [K _]. exact (k_wf _ _ K).
 Qed.
 
 (* ------------------------------------------------------------------ the property-level statements *)
@@ -480,7 +672,7 @@ Lemma value_applied C c i p d en v :
     (p_has_write p = true -> In (p_name p, v) (i_write i)).
 Proof.
   intros H Hin Ho Hc Hd Hcfg ND Hv.
-  destruct (created_param _ _ _ _ H Hin Ho Hc) as [mv [a [p1 [y [p' [Hs [He [Hh [Hf [Hp' [N1 [D1 [V1 [_ [_ [_ Hw]]]]]]]]]]]]]]]].
+  destruct (created_param _ _ _ _ H Hin Ho Hc) as [mv [a [p1 [y [p' [Hs [He [Hh [Hf [Hp' [N1 [D1 [V1 [_ [_ [_ [Hw _]]]]]]]]]]]]]]]]].
   rewrite Hcfg in He.
   destruct (entry_inv _ _ _ Hc He) as [K [Cv [_ Vv]]].
   pose proof (Vv v ND Hv) as Hval.
@@ -683,6 +875,329 @@ Lemma created_write_nodup C c i : mod_init C c = Created i -> NoDup (map p_name 
 Proof.
   intros H ND. destruct (created_inv _ _ _ H) as [mv [accs [ps [_ [EB [_ [_ [_ [_ [_ [_ Ei]]]]]]]]]]]. subst i. simpl.
   apply writes_of_nodup. rewrite (phaseB_names _ _ _ _ EB). exact ND.
+Qed.
+
+(* the accessibles of the instance are the active accessibles of the class, in order *)
+Lemma map_opt_map {A B C} (f : A -> option B) (g : A -> C) (h : B -> C) :
+  (forall x y, f x = Some y -> h y = g x) -> forall l r, map_opt f l = Some r -> map h r = map g l.
+Proof.
+  intros Hf. induction l as [|a l IH]; intros r H; simpl in H; [inversion H; reflexivity|].
+  destruct (f a) as [b|] eqn:E; [|discriminate]. destruct (map_opt f l) as [ys|]; [|discriminate].
+  inversion H; subst. simpl. rewrite (Hf _ _ E). f_equal. apply IH. reflexivity.
+Qed.
+
+Lemma created_param_names C c i : mod_init C c = Created i -> map p_name (i_params i) = map p_name (active (c_params C)).
+Proof.
+  intros H. destruct (created_inv _ _ _ H) as [mv [accs [ps [_ [EB [_ [_ [_ [EF [_ [_ Ei]]]]]]]]]]]. subst i. simpl.
+  rewrite map_map. rewrite <- (phaseB_names _ _ _ _ EB).
+  rewrite (map_ext (fun x => p_name (apply_main (main_unit ps) x)) p_name);
+    [|intros x; apply (apply_main_keeps (main_unit ps) x)].
+  rewrite (map_opt_map finish_param p_name p_name finish_param_name _ _ EF). apply map_map.
+Qed.
+
+Lemma find_param_nodup n : forall ps p, NoDup (map p_name ps) -> In p ps -> p_name p = n -> find_param n ps = Some p.
+Proof.
+  unfold find_param. induction ps as [|q ps IH]; intros p ND Hin Hn; [destruct Hin|]. simpl. inversion ND; subst.
+  destruct Hin as [Hq|Hin].
+  - subst q. rewrite str_eqb_refl'. reflexivity.
+  - destruct (str_eqb (p_name p) (p_name q)) eqn:E; [|apply IH; auto].
+    apply str_eqb_true in E. exfalso. apply H1. rewrite <- E. apply in_map. exact Hin.
+Qed.
+
+Lemma assoc_str_nodup {A} n (v : A) : forall w, NoDup (map fst w) -> In (n, v) w -> assoc_str n w = Some v.
+Proof.
+  induction w as [|[k x] w IH]; intros ND Hin; [destruct Hin|]. simpl. simpl in ND. inversion ND; subst.
+  destruct Hin as [Hq|Hin].
+  - inversion Hq; subst. rewrite str_eqb_refl'. reflexivity.
+  - destruct (str_eqb n k) eqn:E; [|apply IH; auto].
+    apply str_eqb_true in E. subst k. exfalso. apply H1. change n with (fst (n, v)). apply in_map. exact Hin.
+Qed.
+
+(* a configured value of a parameter with a write wrapper: what its driver method receives during start-up *)
+Lemma configured_value_written C c i p d en v :
+  mod_init C c = Created i -> In p (c_params C) -> p_optional p = false -> p_iscmd p = false -> p_dt p = Some d ->
+  assoc_str (p_name p) c = Some (CDict en) -> NoDup (map fst en) -> In (k_value, v) en ->
+  NoDup (map p_name (active (c_params C))) -> p_has_write p = true ->
+  exists p' d', find_param (p_name p) (i_params i) = Some p' /\ p_dt p' = Some d' /\ (forall x, conv d x = conv d' x) /\
+    has_thread i = true /\
+    writes_for (p_name p) (startup i) = match valid d' v with Ok x => if p_wfunc p then [x] else [] | Err _ => [] end.
+Proof.
+  intros H Hin Ho Hc Hd Hcfg NDe Hv ND Hhw.
+  destruct (created_param _ _ _ _ H Hin Ho Hc) as [mv [a [p1 [y [p' [Hs [He [Hh [Hf [Hp' [N1 [D1 [V1 [_ [_ [_ [Hw W1]]]]]]]]]]]]]]]]].
+  rewrite Hcfg in He.
+  destruct (entry_inv _ _ _ Hc He) as [K [_ [_ Vv]]].
+  pose proof (Vv v NDe Hv) as Hval.
+  destruct (post_keeps (mexport mv) p1) as [K0 [PV [_ [_ [PD _]]]]].
+  destruct (handle_writes_ok _ _ _ Hh) as [d1 [Hd1 [_ [Hd2 [Hn2 [Hc2 [_ Hm]]]]]]].
+  rewrite PV, Hval in Hm. destruct Hm as [_ Hw2]. rewrite PD in Hd1.
+  pose proof (k_dt _ _ K) as Hq. rewrite Hd, Hd1 in Hq. simpl in Hq.
+  assert (Hca : p_iscmd (a_param a) = false).
+  { rewrite Hc2, (k_cmd _ _ K0), (k_cmd _ _ K). exact Hc. }
+  destruct (finish_param_ok _ _ Hca Hf) as [Fn [Fd _]].
+  assert (Hname : p_name p' = p_name p).
+  { rewrite N1, Fn, Hn2, (k_name _ _ K0). apply (k_name _ _ K). }
+  assert (Hwa : In (p_name p, v) (i_write i)).
+  { assert (a_write a = Some v) as Hwa by (rewrite Hw2, (k_hw _ _ K0), (k_hw _ _ K), Hhw; reflexivity).
+    apply Hw in Hwa. rewrite Hn2, (k_name _ _ K0), (k_name _ _ K) in Hwa. exact Hwa. }
+  pose proof (created_write_nodup _ _ _ H ND) as NW.
+  assert (Hfind : find_param (p_name p) (i_params i) = Some p').
+  { apply find_param_nodup; [rewrite (created_param_names _ _ _ H); exact ND|exact Hp'|exact Hname]. }
+  assert (Ht : has_thread i = true).
+  { unfold has_thread. destruct (i_write i); [destruct Hwa|]. apply orb_true_r. }
+  exists p', d1. split; [exact Hfind|]. split; [rewrite D1, Fd; exact Hd2|]. split; [exact Hq|]. split; [exact Ht|].
+  rewrite (startup_writes _ _ NW), Ht, (assoc_str_nodup _ _ _ NW Hwa). unfold handed.
+  rewrite Hfind, D1, Fd, Hd2, W1. reflexivity.
+Qed.
+
+(* ------------------------------------------------------------------ writeDict: the converse direction *)
+Lemma phaseB_back mexp c : forall ps accs a, phaseB mexp ps c = Some accs -> In a accs ->
+  exists p, In p ps /\ p_optional p = false /\ acc_step mexp p (assoc_str (p_name p) c) = Some a.
+Proof.
+  induction ps as [|q ps IH]; intros accs a H Hin; simpl in H; [inversion H; subst; destruct Hin|].
+  destruct (p_optional q) eqn:Eo.
+  - destruct (IH _ _ H Hin) as [p [Hp Hr]]. exists p. split; [right; exact Hp|exact Hr].
+  - destruct (acc_step mexp q (assoc_str (p_name q) c)) as [b|] eqn:E; [|discriminate].
+    destruct (phaseB mexp ps c) as [l|] eqn:E2; [|discriminate]. inversion H; subst. destruct Hin as [Hb|Hin].
+    + subst b. exists q. split; [left; reflexivity|split; [exact Eo|exact E]].
+    + destruct (IH _ _ eq_refl Hin) as [p [Hp Hr]]. exists p. split; [right; exact Hp|exact Hr].
+Qed.
+
+Lemma cmd_setprop_cmd p k v p' : cmd_setprop p k v = PGo p' -> p_iscmd p' = p_iscmd p.
+Proof.
+  unfold cmd_setprop. destruct (pprop_type command_props k); [|discriminate].
+  destruct (mp_validate m v) as [x|e]; [|destruct e; discriminate].
+  destruct (str_eqb k k_visibility). { destruct x; try discriminate; intros H; inversion H; reflexivity. }
+  destruct (str_eqb k k_group). { destruct x; try discriminate; intros H; inversion H; reflexivity. }
+  destruct (str_eqb k k_description). { destruct x; try discriminate; intros H; inversion H; reflexivity. }
+  destruct (str_eqb k k_export). { destruct x; try discriminate; intros H; inversion H; reflexivity. }
+  discriminate.
+Qed.
+Lemma prop_step_cmd p kv p' : prop_step (PGo p) kv = PGo p' -> p_iscmd p' = p_iscmd p.
+Proof.
+  destruct kv as [k v]. intros H. destruct (p_iscmd p) eqn:Hc.
+  - unfold prop_step in H. rewrite Hc in H. destruct (mem_str k checked_value_props); [discriminate|].
+    rewrite (cmd_setprop_cmd _ _ _ _ H). exact Hc.
+  - apply (prop_step_inv _ _ _ _ Hc) in H. destruct H as [K _]. rewrite (k_cmd _ _ K). exact Hc.
+Qed.
+Lemma apply_entry_keep_cmd : forall en p pk r, apply_entry_keep p en = (pk, r) -> p_iscmd pk = p_iscmd p.
+Proof.
+  induction en as [|kv en IH]; intros p pk r H; [simpl in H; inversion H; reflexivity|].
+  rewrite apply_entry_keep_cons in H. destruct (prop_step (PGo p) kv) eqn:E; try (inversion H; reflexivity).
+  rewrite (IH _ _ _ H). eapply prop_step_cmd; exact E.
+Qed.
+
+(* a command never gets a writeDict entry *)
+Lemma acc_step_cmd_nowrite mexp p e a : p_iscmd p = true -> acc_step mexp p e = Some a -> a_write a = None.
+Proof.
+  intros Hc. unfold acc_step. destruct e as [[v|en]|]; [discriminate| |].
+  - destruct (apply_entry_keep p en) as [pk r] eqn:E. pose proof (apply_entry_keep_cmd _ _ _ _ E) as Ck.
+    destruct r as [|er|p1]; [discriminate| |].
+    + cbv zeta. rewrite post_cmd, Ck, Hc. intros H; inversion H; reflexivity.
+    + pose proof (apply_entry_keep_go _ _ _ _ E). subst pk. cbv zeta. rewrite post_cmd, Ck, Hc.
+      intros H; inversion H; reflexivity.
+  - cbv beta iota zeta. rewrite post_cmd, Hc. intros H; inversion H; reflexivity.
+Qed.
+
+(* where the value of a parameter comes from after its cfg entry was applied *)
+Lemma entry_value_source : forall en p p1 v, p_iscmd p = false -> apply_entry_keep p en = (p1, PGo p1) ->
+  p_value p1 = Some v -> In (k_value, v) en \/ p_value p = Some v.
+Proof.
+  induction en as [|[k x] en IH]; intros p p1 v Hc H Hv; [simpl in H; inversion H; subst; right; exact Hv|].
+  rewrite apply_entry_keep_cons in H.
+  destruct (prop_step (PGo p) (k, x)) as [| |p'] eqn:Es; [inversion H|inversion H|].
+  destruct (prop_step_inv _ _ _ _ Hc Es) as [K [V0 [V1 _]]].
+  assert (Hc' : p_iscmd p' = false) by (rewrite (k_cmd _ _ K); exact Hc).
+  destruct (IH p' p1 v Hc' H Hv) as [Hi|Hp]; [left; right; exact Hi|].
+  destruct (str_eqb k k_value) eqn:E.
+  - apply str_eqb_true in E. subst k. rewrite (V1 eq_refl) in Hp. inversion Hp; subst. left. left. reflexivity.
+  - right. rewrite <- (V0 eq_refl). exact Hp.
+Qed.
+
+(* every entry of writeDict is the value (configured, or the class-level one when the configuration gives none) of a
+   non-optional parameter of the class that has a write wrapper *)
+Lemma write_entry_source C c i n v : mod_init C c = Created i -> In (n, v) (i_write i) ->
+  exists p, In p (c_params C) /\ p_optional p = false /\ p_iscmd p = false /\ p_name p = n /\ p_has_write p = true /\
+    ((exists en, assoc_str n c = Some (CDict en) /\ In (k_value, v) en) \/ p_value p = Some v).
+Proof.
+  intros H Hin. destruct (created_inv _ _ _ H) as [mv [accs [ps [_ [EB [Eerr [_ [_ [_ [_ [_ Ei]]]]]]]]]]]. subst i.
+  simpl in Hin. unfold writes_of in Hin. apply in_flat_map in Hin. destruct Hin as [a [Ha Hw]].
+  destruct (a_write a) as [v0|] eqn:Ew; [|destruct Hw]. destruct Hw as [Hw|[]]. inversion Hw; subst. clear Hw.
+  destruct (phaseB_back _ _ _ _ _ EB Ha) as [p [Hp [Ho Hs]]].
+  destruct (p_iscmd p) eqn:Hc; [rewrite (acc_step_cmd_nowrite _ _ _ _ Hc Hs) in Ew; discriminate|].
+  pose proof (flat_map_nil _ _ _ Eerr Ha) as Hae.
+  destruct (acc_step_ok _ _ _ _ Hc Hs Hae) as [p1 [He [Hh _]]].
+  destruct (handle_writes_ok _ _ _ Hh) as [d1 [_ [_ [_ [Hn2 [_ [_ Hm]]]]]]].
+  destruct (post_keeps (mexport mv) p1) as [K0 [PV _]]. rewrite PV in Hm.
+  destruct (p_value p1) as [v1|] eqn:Ev1; [|rewrite Ew in Hm; discriminate]. destruct Hm as [_ Hm]. rewrite Ew in Hm.
+  rewrite (k_hw _ _ K0) in Hm. destruct (p_has_write p1) eqn:Ehw; [|discriminate]. inversion Hm; subst v1.
+  exists p. rewrite Hn2, (k_name _ _ K0).
+  destruct (assoc_str (p_name p) c) as [[x|en]|] eqn:Ecfg; [contradiction| |].
+  - destruct (entry_inv _ _ _ Hc He) as [K _]. rewrite (k_name _ _ K). rewrite (k_hw _ _ K) in Ehw.
+    repeat split; try assumption.
+    destruct (entry_value_source _ _ _ _ Hc He Ev1) as [Hi|Hv]; [left; exists en; split; [exact Ecfg|exact Hi]|right; exact Hv].
+  - subst p1. repeat split; try assumption. right. exact Ev1.
+Qed.
+
+(* ------------------------------------------------------------------ per-item completeness of the error list *)
+Definition first_errs (C : cls) (c : cfg) (esA : list err) (accs : list accres) : list err :=
+  esA ++ (flat_map a_errs accs ++ dup_errs [] accs) ++ match unknown_names C c with [] => [] | l => [ErrUnknown l] end.
+
+(* a rejected module: the errors collected while the configuration was applied - or, only when there was none, the
+   errors of the consistency checks *)
+Lemma rejected_inv C c es : mod_init C c = Rejected es ->
+  exists mv esA accs ps, phaseA C c = Some (mv, esA) /\ phaseB (mexport mv) (c_params C) c = Some accs /\
+    map_opt finish_param (map a_param accs) = Some ps /\
+    ((first_errs C c esA accs <> [] /\ es = first_errs C c esA accs) \/
+     (first_errs C c esA accs = [] /\
+      es = check_module C mv ++ flat_map check_param (map (apply_main (main_unit ps)) ps))).
+Proof.
+  unfold mod_init. destruct (phaseA C c) as [[mv esA]|] eqn:EA; [|discriminate].
+  destruct (phaseB (mexport mv) (c_params C) c) as [accs|] eqn:EB; [|discriminate].
+  destruct (map_opt finish_param (map a_param accs)) as [ps|] eqn:EF; [|discriminate].
+  fold (first_errs C c esA accs). cbv zeta. intros H. exists mv, esA, accs, ps. split; [reflexivity|split; [exact EB|split; [exact EF|]]].
+  destruct (first_errs C c esA accs) as [|e0 r] eqn:E.
+  - right. split; [reflexivity|].
+    destruct (check_module C mv ++ flat_map check_param (map (apply_main (main_unit ps)) ps)); [discriminate|].
+    inversion H. reflexivity.
+  - left. split; [discriminate|]. inversion H. reflexivity.
+Qed.
+
+Lemma rejected_has C c es mv esA accs e :
+  mod_init C c = Rejected es -> phaseA C c = Some (mv, esA) -> phaseB (mexport mv) (c_params C) c = Some accs ->
+  In e (first_errs C c esA accs) -> In e es.
+Proof.
+  intros H EA EB Hin. destruct (rejected_inv _ _ _ H) as [mv' [esA' [accs' [ps [EA' [EB' [_ Hc]]]]]]].
+  rewrite EA in EA'. inversion EA'; subst mv' esA'. rewrite EB in EB'. inversion EB'; subst accs'.
+  destruct Hc as [[_ ->]|[E _]]; [exact Hin|]. rewrite E in Hin. destruct Hin.
+Qed.
+
+Lemma apply_entry_keep_app : forall pre p p1 r, apply_entry_keep p pre = (p1, PGo p1) ->
+  apply_entry_keep p (pre ++ r) = apply_entry_keep p1 r.
+Proof.
+  induction pre as [|kv pre IH]; intros p p1 r H; [simpl in H; inversion H; reflexivity|].
+  rewrite <- app_comm_cons, apply_entry_keep_cons. rewrite apply_entry_keep_cons in H.
+  destruct (prop_step (PGo p) kv) as [| |p'] eqn:E; [inversion H|inversion H|]. apply IH. exact H.
+Qed.
+
+(* every unknown name of the configuration is named *)
+Lemma unknown_name_listed C c es k : mod_init C c = Rejected es ->
+  In k (map fst c) -> mem_str k (known_names C) = false -> exists l, In (ErrUnknown l) es /\ In k l.
+Proof.
+  intros H Hin Hk. destruct (rejected_inv _ _ _ H) as [mv [esA [accs [ps [EA [EB _]]]]]].
+  assert (Hu : In k (unknown_names C c)).
+  { unfold unknown_names. apply filter_In. split; [exact Hin|]. rewrite Hk. reflexivity. }
+  exists (unknown_names C c). split; [|exact Hu]. apply (rejected_has _ _ _ _ _ _ _ H EA EB).
+  unfold first_errs. apply in_or_app. right. apply in_or_app. right.
+  destruct (unknown_names C c); [destruct Hu|left; reflexivity].
+Qed.
+
+(* an error of the step of one accessible is in the list *)
+Lemma acc_error_listed C c es p a e mv esA : mod_init C c = Rejected es -> phaseA C c = Some (mv, esA) ->
+  In p (c_params C) -> p_optional p = false -> acc_step (mexport mv) p (assoc_str (p_name p) c) = Some a ->
+  In e (a_errs a) -> In e es.
+Proof.
+  intros H EA Hin Ho Hs He. destruct (rejected_inv _ _ _ H) as [mv' [esA' [accs [ps [EA' [EB _]]]]]].
+  rewrite EA in EA'. inversion EA'; subst mv' esA'.
+  destruct (phaseB_in _ _ _ _ _ EB Hin Ho) as [a' [Ha Hs']]. rewrite Hs in Hs'. inversion Hs'; subst a'.
+  apply (rejected_has _ _ _ _ _ _ _ H EA EB). unfold first_errs. apply in_or_app. right. apply in_or_app. left.
+  apply in_or_app. left. apply in_flat_map. exists a. split; assumption.
+Qed.
+
+(* a value / default / constant of the wrong type is named, when the properties before it in the same Param entry
+   could be applied (the loop over one entry stops at its first failure) *)
+Lemma wrong_type_listed C c es p d pre k v rest p1 e : mod_init C c = Rejected es ->
+  In p (c_params C) -> p_optional p = false -> p_iscmd p = false -> p_dt p = Some d ->
+  assoc_str (p_name p) c = Some (CDict (pre ++ (k, v) :: rest)) -> apply_entry_keep p pre = (p1, PGo p1) ->
+  mem_str k checked_value_props = true -> conv d v = Err e -> is_bad_value e = true ->
+  In (ErrBadValue (p_name p) k) es.
+Proof.
+  intros H Hin Ho Hc Hd Hcfg Hpre Hm Hcv Hb.
+  destruct (rejected_inv _ _ _ H) as [mv [esA [accs [ps [EA [EB _]]]]]].
+  destruct (phaseB_in _ _ _ _ _ EB Hin Ho) as [a [Ha Hs]].
+  apply (acc_error_listed _ _ _ _ _ _ _ _ H EA Hin Ho Hs).
+  destruct (entry_inv _ _ _ Hc Hpre) as [K _].
+  assert (Hc1 : p_iscmd p1 = false) by (rewrite (k_cmd _ _ K); exact Hc).
+  pose proof (k_dt _ _ K) as Hq. rewrite Hd in Hq. destruct (p_dt p1) as [d1|] eqn:Ed1; [|contradiction]. simpl in Hq.
+  assert (Hstep : prop_step (PGo p1) (k, v) = PErr (ErrBadValue (p_name p1) k)).
+  { unfold prop_step. rewrite Hc1, Hm, Ed1, <- Hq, Hcv, Hb. reflexivity. }
+  assert (Happ : apply_entry_keep p (pre ++ (k, v) :: rest) = (p1, PErr (ErrBadValue (p_name p1) k))).
+  { rewrite (apply_entry_keep_app _ _ _ _ Hpre), apply_entry_keep_cons, Hstep. reflexivity. }
+  rewrite Hcfg in Hs. unfold acc_step in Hs. rewrite Happ in Hs. cbv zeta in Hs. rewrite post_cmd, Hc1 in Hs.
+  destruct (handle_writes (post (mexport mv) p1)) as [[p2 es0] w]. inversion Hs; subst a. simpl.
+  left. rewrite (k_name _ _ K). reflexivity.
+Qed.
+
+(* a required value that is neither configured nor given by the class is named *)
+Lemma missing_value_listed C c es p d : mod_init C c = Rejected es ->
+  In p (c_params C) -> p_optional p = false -> p_iscmd p = false -> p_dt p = Some d -> p_needscfg p = true ->
+  p_value p = None -> assoc_str (p_name p) c = None -> In (ErrNeedsCfg (p_name p)) es.
+Proof.
+  intros H Hin Ho Hc Hd Hn Hv Hcfg.
+  destruct (rejected_inv _ _ _ H) as [mv [esA [accs [ps [EA [EB _]]]]]].
+  destruct (phaseB_in _ _ _ _ _ EB Hin Ho) as [a [Ha Hs]].
+  apply (acc_error_listed _ _ _ _ _ _ _ _ H EA Hin Ho Hs).
+  rewrite Hcfg in Hs. unfold acc_step in Hs. cbv beta iota zeta in Hs. rewrite post_cmd, Hc in Hs.
+  destruct (post_keeps (mexport mv) p) as [K0 [PV [PN [_ [PD _]]]]].
+  unfold handle_writes in Hs. rewrite PD, Hd, PV, Hv, PN, Hn in Hs.
+  destruct (p_default (post (mexport mv) p)); inversion Hs; subst a; simpl; left; rewrite (k_name _ _ K0); reflexivity.
+Qed.
+
+(* a module property whose configured value does not validate is named *)
+Definition mprop_cfg_value (c : cfg) (k : str) : option pyval :=
+  match assoc_str k c with
+  | Some (CRaw PNone) => None
+  | Some (CRaw v) => Some v
+  | Some (CDict e) => assoc_str k_value e
+  | None => None
+  end.
+
+Lemma mprop_step_inv c acc a mv1 es1 : mprop_step c acc a = Some (mv1, es1) ->
+  exists mv0 es0, acc = Some (mv0, es0) /\ incl es0 es1 /\
+    forall v e, mprop_cfg_value c (mp_name a) = Some v -> mp_validate (mp_type a) v = Err e -> is_bad_value e = true ->
+                In (ErrModProp (mp_name a)) es1.
+Proof.
+  unfold mprop_step, mprop_cfg_value. destruct acc as [[mv0 es0]|]; [|discriminate]. intros H. exists mv0, es0.
+  split; [reflexivity|].
+  destruct (assoc_str (mp_name a) c) as [cv|].
+  2:{ inversion H; subst. split; [apply incl_refl|discriminate]. }
+  assert (G : forall v, (match mp_validate (mp_type a) v with
+                         | Ok x => Some (dict_set (mp_name a) x mv0, es0)
+                         | Err e => if is_bad_value e then Some (mv0, es0 ++ [ErrModProp (mp_name a)]) else None
+                         end = Some (mv1, es1)) ->
+            incl es0 es1 /\ forall e, mp_validate (mp_type a) v = Err e -> is_bad_value e = true ->
+                                       In (ErrModProp (mp_name a)) es1).
+  { intros v Hv. destruct (mp_validate (mp_type a) v) as [x|e0].
+    - inversion Hv; subst. split; [apply incl_refl|discriminate].
+    - destruct (is_bad_value e0); [|discriminate]. inversion Hv; subst. split; [apply incl_appl; apply incl_refl|].
+      intros _ _ _. apply in_or_app. right. left. reflexivity. }
+  destruct cv as [v|en].
+  - destruct v; try (destruct (G _ H) as [G1 G2]; split; [exact G1|intros v0 e0 Hv; inversion Hv; subst; apply G2]).
+    inversion H; subst. split; [apply incl_refl|discriminate].
+  - destruct (assoc_str k_value en) as [v|]; [|discriminate].
+    destruct (G _ H) as [G1 G2]. split; [exact G1|intros v0 e0 Hv; inversion Hv; subst; apply G2].
+Qed.
+
+Lemma phaseA_fold c : forall l acc mv es, fold_left (mprop_step c) l acc = Some (mv, es) ->
+  exists mv0 es0, acc = Some (mv0, es0) /\ incl es0 es /\
+    forall sp v e, In sp l -> mprop_cfg_value c (mp_name sp) = Some v -> mp_validate (mp_type sp) v = Err e ->
+                   is_bad_value e = true -> In (ErrModProp (mp_name sp)) es.
+Proof.
+  induction l as [|a l IH]; intros acc mv es H; simpl in H.
+  - exists mv, es. split; [exact H|split; [apply incl_refl|intros ? ? ? []]].
+  - destruct (IH _ _ _ H) as [mv1 [es1 [H1 [I1 F1]]]].
+    destruct (mprop_step_inv _ _ _ _ _ H1) as [mv0 [es0 [H0 [I0 F0]]]].
+    exists mv0, es0. split; [exact H0|split; [eapply incl_tran; eassumption|]].
+    intros sp v e [Hs|Hs] Hv He Hb; [subst sp; apply I1; eapply F0; eassumption|eapply F1; eassumption].
+Qed.
+
+Lemma bad_module_property_listed C c es sp v e : mod_init C c = Rejected es ->
+  In sp (all_mprops C) -> mprop_cfg_value c (mp_name sp) = Some v -> mp_validate (mp_type sp) v = Err e ->
+  is_bad_value e = true -> In (ErrModProp (mp_name sp)) es.
+Proof.
+  intros H Hin Hv He Hb. destruct (rejected_inv _ _ _ H) as [mv [esA [accs [ps [EA [EB _]]]]]].
+  apply (rejected_has _ _ _ _ _ _ _ H EA EB). unfold first_errs. apply in_or_app. left.
+  unfold phaseA in EA. destruct (fold_left (mprop_step c) (all_mprops C) (Some ([], []))) as [[mv0 es0]|] eqn:E; [|discriminate].
+  inversion EA; subst. destruct (phaseA_fold _ _ _ _ _ E) as [_ [_ [_ [_ F]]]]. eapply F; eassumption.
 Qed.
 
 (* ------------------------------------------------------------------ the name map of a created module *)
